@@ -17,6 +17,7 @@ type AppStats struct {
 	Corpus                                                                         []string
 	ForkRuns, ForkDeleted                                                          int
 	ForkDiffs                                                                      []string
+	QueryInconsistent                                                              []string // contradictions between query paths about one committed height
 	ReplicaRuns, NoiseRuns, RestartRuns, Restarts                                  int
 	NoiseChecks, NoiseChecksPassed, NoiseQueries                                   int
 	NoiseFreshChecks, NoiseFreshPassed                                             int
@@ -290,6 +291,13 @@ func writeCases(hs []*History, outPath, jsonPath, evals string) (*AppStats, erro
 			sb.WriteString(";\n")
 		}
 		sb.WriteString(h.CoqCase())
+		for _, sn := range h.Snaps {
+			if sn != nil {
+				for _, q := range sn.Inconsistent {
+					st.QueryInconsistent = append(st.QueryInconsistent, fmt.Sprintf("history %d: %s", i, q))
+				}
+			}
+		}
 		st.Histories++
 		st.Blocks += len(h.Blocks)
 		nontrivial := false
